@@ -1,39 +1,43 @@
-(* C14 phase 2: agreement of the two reader models on modules without blackbox instances (part A5) *)
+(* C14 phase 2: agreement of the two reader models on the documented subset (part A5) *)
 From stdpp Require Import strings gmap sets pretty.
 From CG Require Import Model.FastVerilog Proofs.FastVerilogProofs Gen.Gen_fastv.
-From CG Require Import Proofs.FvA0 Proofs.FvA1 Proofs.FvA2 Proofs.FvA3 Proofs.FvA4.
+From CG Require Import Proofs.FvA0 Proofs.FvA1 Proofs.FvA2 Proofs.FvP1 Proofs.FvE1 Proofs.FvE2 Proofs.FvE3 Proofs.FvE4 Proofs.FvA3 Proofs.FvE5 Proofs.FvE6 Proofs.FvE7 Proofs.FvA4.
 Open Scope string_scope.
 
 Section fold2.
-  Variables (t0 t1 tx : string).
+  Variables (t0 t1 tx : string) (bbs : list bbdef).
   Hypothesis Hties : okname t0 ∧ okname t1 ∧ okname tx.
-  Notation stp := (stp t0 t1). Notation rel := (rel t0 t1 tx). Notation it_driver := (it_driver t0 t1). Notation good := (good t0 t1 tx).
+  Hypothesis Hnd : dotted t0 = false ∧ dotted t1 = false ∧ dotted tx = false.
+  Notation stp := (stp t0 t1 bbs). Notation rel := (rel t0 t1 tx). Notation it_driver := (it_driver t0 t1 bbs). Notation good := (good t0 t1 tx bbs).
 
   Lemma stp_G_None s it m : sG s !! m = None → m ∉ it_driver it → sG (stp s it) !! m = None.
   Proof.
-    intros HG Hm. unfold FvA3.stp, FvA4.it_driver in *. destruct it; try done; destruct (FvA3.gate_view t0 t1 _) as [[o [t' fis]]|]; try done;
-      cbn [sG]; rewrite lookup_insert_ne; [done|set_solver|done|set_solver].
+    intros HG Hm. unfold FvA3.stp, FvA4.it_driver in *. destruct it; try done; cbn [sG]; by rewrite foldl_ins_other.
   Qed.
   Lemma stp_I s it m : m ∉ sI s → m ∉ it_inputs it → m ∉ sI (stp s it).
   Proof.
-    intros HI Hm. unfold FvA3.stp, it_inputs in *. destruct it; try (destruct (FvA3.gate_view t0 t1 _) as [[o [t' fis]]|]; done).
+    intros HI Hm. unfold FvA3.stp, it_inputs in *. destruct it; try done.
     cbn [sI]. rewrite elem_of_union, elem_of_list_to_set. tauto.
   Qed.
 
-  Lemma full_fold bbs rest : ∀ C s, rel (c_g C) s → Gok s → (∀ it, it ∈ rest → good it) →
-    NoDup (rest ≫= it_driver) →
+  Lemma full_fold rest : ∀ C s, rel (c_g C) s → sinv s (dom (c_bbs C)) → (∀ it, it ∈ rest → good it) →
+    NoDup (rest ≫= it_driver) → NoDup (rest ≫= it_insts) →
     (∀ o, o ∈ rest ≫= it_driver → sG s !! o = None ∧ o ∉ sI s ∧ o ∉ rest ≫= it_inputs) →
     (∀ n, n ∈ rest ≫= it_inputs → sG s !! n = None) →
+    (∀ i, i ∈ rest ≫= it_insts → i ∉ dom (c_bbs C)) →
     ∃ C', foldl (λ st it, rbind st (λ C, full_item t0 t1 tx bbs C it)) (Ok C) rest = Ok C' ∧
-          rel (c_g C') (foldl stp s rest) ∧ Gok (foldl stp s rest) ∧ c_bbs C' = c_bbs C.
+          rel (c_g C') (foldl stp s rest) ∧ sinv (foldl stp s rest) (dom (c_bbs C')) ∧
+          dom (c_bbs C') = dom (c_bbs C) ∪ list_to_set (rest ≫= it_insts).
   Proof.
-    induction rest as [|it rest IH]; intros C s Hrel HG Hgood Hnd Hdrv Hin; cbn [foldl rbind].
-    - eauto.
-    - rewrite bind_cons in Hnd. apply NoDup_app in Hnd as (Hnd1 & Hnd12 & Hnd2).
-      destruct (full_item_step t0 t1 tx Hties bbs C s it Hrel HG) as (C1 & -> & Hrel1 & HG1 & Hb1).
-      { apply Hgood. by left. }
+    induction rest as [|it rest IH]; intros C s Hrel HG Hgood Hndk Hndi Hdrv Hin Hinst; cbn [foldl rbind].
+    - exists C. split; [done|]. split; [done|]. split; [done|]. set_solver.
+    - rewrite bind_cons in Hndk. apply NoDup_app in Hndk as (Hnd1 & Hnd12 & Hnd2).
+      rewrite bind_cons in Hndi. apply NoDup_app in Hndi as (Hni1 & Hni12 & Hni2).
+      destruct (full_item_step t0 t1 tx bbs Hties Hnd C s it Hrel HG) as (C1 & -> & Hrel1 & HG1 & Hb1).
+      { apply Hgood. by left. } { done. }
       { intros o Ho. destruct (Hdrv o) as (? & ? & ?); [rewrite bind_cons; apply elem_of_app; by left|split; done]. }
       { intros n Hn. apply Hin. rewrite bind_cons. apply elem_of_app. by left. }
+      { intros i Hi. apply Hinst. rewrite bind_cons. apply elem_of_app. by left. }
       assert (Hg' : ∀ it', it' ∈ rest → good it') by (intros it' Hit'; apply Hgood; by right).
       assert (Hd' : ∀ o, o ∈ rest ≫= it_driver → sG (stp s it) !! o = None ∧ o ∉ sI (stp s it) ∧ o ∉ rest ≫= it_inputs).
       { intros o Ho. destruct (Hdrv o) as (H1 & H2 & H3); [rewrite bind_cons; apply elem_of_app; by right|].
@@ -44,7 +48,10 @@ Section fold2.
       { intros n Hn. apply stp_G_None; [apply Hin; rewrite bind_cons; apply elem_of_app; by right|].
         intros Hx. destruct (Hdrv n) as (_ & _ & H3); [rewrite bind_cons; apply elem_of_app; by left|].
         apply H3. rewrite bind_cons. apply elem_of_app. by right. }
-      destruct (IH C1 (stp s it) Hrel1 HG1 Hg' Hnd2 Hd' Hi') as (C' & -> & Hrel' & HG' & Hb').
-      exists C'. split; [done|]. split; [done|]. split; [done|]. congruence.
+      assert (Hn' : ∀ i, i ∈ rest ≫= it_insts → i ∉ dom (c_bbs C1)).
+      { intros i Hi. rewrite Hb1. apply not_elem_of_union. split; [apply Hinst; rewrite bind_cons; apply elem_of_app; by right|].
+        rewrite elem_of_list_to_set. intros Hx. by apply (Hni12 i). }
+      destruct (IH C1 (stp s it) Hrel1 HG1 Hg' Hnd2 Hni2 Hd' Hi' Hn') as (C' & -> & Hrel' & HG' & Hb').
+      exists C'. split; [done|]. split; [done|]. split; [done|]. rewrite Hb', Hb1, bind_cons, list_to_set_app_L. set_solver.
   Qed.
 End fold2.
